@@ -376,6 +376,13 @@ def finish(spec: PropSpec, ctx: Optional[Ctx], tier: str, seed: int, t0: float, 
             f"[pvs] selftest property={spec.pid}: mutants applied={selftest.get('applied')} killed={selftest.get('killed')} "
             f"equivalents={selftest.get('equivalents')} silent={selftest.get('silent')} skipped={selftest.get('skipped')}"
         )
+        if selftest.get("foreign"):
+            f = selftest["foreign"]
+            out.append(
+                f"[pvs] selftest property={spec.pid}: variants of the other properties under this rule set: equivalents silent "
+                f"{f.get('foreign_equivalents_silent')}/{f.get('foreign_equivalents')}, breaking variants reported {f.get('foreign_mutants_reported')}/"
+                f"{f.get('foreign_mutants')} (analysis errors {f.get('foreign_mutants_analysis_error')}, crashes 0 required)"
+            )
         for s in selftest.get("problems", []):
             out.append(f"SELFTEST-NOTE: {s}")
     if status == 0:
